@@ -306,7 +306,7 @@ class Ev:
         self.vars = {}
         self.trace = []
         self.funcs = {'t': lambda a: ('bool', True), 'f': lambda a: ('bool', False), 'one': lambda a: ('num', Decimal(1)), 'two': lambda a: ('num', Decimal(2)),
-                      'boom': None, 'id': lambda a: a[0] if a else ('none',), 'cnt': lambda a: ('num', Decimal(len(a)))}
+                      'boom': None, 'boomT': None, 'boomP': None, 'id': lambda a: a[0] if a else ('none',), 'cnt': lambda a: ('num', Decimal(len(a)))}
     def call(self, name, args):
         if name in self.funcs:
             self.trace.append('%s(%s)' % (name, ','.join(vdbg(a) for a in args)))
